@@ -7,6 +7,18 @@ sys.path.insert(0, HERE)
 
 CHECKS = {
     # id: (category, technique, level text, level note, design ref)
+    "C01": (
+        "exploration",
+        "Hypothesis-generated operand configurations with symbolic (sympy) / rational / float values + exhaustive "
+        "configuration enumeration, against a label-dict reference model",
+        "Every generated configuration (operand dimension subsets, storage orders, item counts, operator, number/reflected/"
+        "unary forms) is compared with a plain-loop label-dict model; with symbolic values the comparison is a polynomial "
+        "identity, so the configuration is decided for all real values. The space of ordered operand pairs over a 3-dim "
+        "(thorough: 4-dim) universe is enumerated completely with label-coded values.",
+        "Trusts vlib/model.py and sympy's cancel(); object-dtype arrays cannot be 0-d, so 0-d operands are covered with "
+        "float64 / label-coded values only; bounds <= 4 dims, <= 4 items.",
+        "DESIGN.md C01",
+    ),
     "C14": (
         "exploration",
         "exhaustive pair enumeration + generated operation histories (Hypothesis) against an ordered-list model",
